@@ -6,6 +6,7 @@ package limitswarm
 
 import (
 	"fmt"
+	"os"
 	"runtime/debug"
 	"strings"
 
@@ -694,6 +695,9 @@ func (e *Engine) Run(t *core.Tape, cfg *core.Config, st *core.Stats) *core.Viola
 	}
 	ref := cfgT{lua.Options{CallStackSize: 2048, RegistrySize: 2048, RegistryMaxSize: 1024 * 256, RegistryGrowStep: 4096}, false}
 	const maxSteps = 3_000_000
+	if os.Getenv("VERIF_DEBUG") != "" {
+		fmt.Fprintf(os.Stderr, "--- limitswarm program ---\n%s\n--- reference run ---\n", src)
+	}
 	r0 := runUnder(proto, ref, maxSteps)
 	st.Evals++
 	st.Steps += r0.steps
@@ -736,6 +740,9 @@ func (e *Engine) Run(t *core.Tape, cfg *core.Config, st *core.Stats) *core.Viola
 		c := drawCfg(t)
 		if len(cfg.Aux) >= 1 && int(cfg.Aux[0]) != i {
 			continue
+		}
+		if os.Getenv("VERIF_DEBUG") != "" {
+			fmt.Fprintf(os.Stderr, "--- run under %s ---\n", c)
 		}
 		r := runUnder(proto, c, maxSteps)
 		st.D(model.HashTrace(r.trace, r.out.TopError))
